@@ -96,7 +96,34 @@ VF_DECLARE_INPUT(struct vf_in, IN)
 
 static struct struct_ext2_filsys vf_fs;
 static struct ext2_super_block vf_sb;
+#if OBJ == O_DIRENT
+/* The leaf block the real code works on is laid out as a struct whose small members (the rec_len fields of the
+ * chain) are separate from the large symbolic remainders, so that CBMC's field sensitivity propagates the concrete
+ * rec_len values into the real chain walk (inside one 1024-byte array with symbolic content nothing is constant).
+ * Memory layout is exactly a 1024-byte block. */
+#ifndef R1
+#define R1 1012
+#endif
+struct vf_blk {
+	unsigned char h0[4], r0[2], b0[R1 - 6];
+#ifdef R2
+	unsigned char h1[4], r1[2], b1[R2 - 6];
+#ifdef R3
+	unsigned char h2[4], r2[2], b2[R3 - 6];
+#define VF_CHAIN (R1 + R2 + R3)
+#else
+#define VF_CHAIN (R1 + R2)
+#endif
+#else
+#define VF_CHAIN (R1)
+#endif
+	unsigned char rest[BS - VF_CHAIN];
+};
+static struct vf_blk vf_blkW __attribute__((aligned(8)));
+#define W ((unsigned char *) &vf_blkW)
+#else
 static unsigned char W[OSZ + 8] __attribute__((aligned(8)));	/* the object the real code works on */
+#endif
 static unsigned char E[TL_MAXBYTES];	/* expected stream */
 static unsigned int en;
 static ext2_ino_t vf_asked_ino;
@@ -168,8 +195,21 @@ static int vf_unchanged_except(unsigned int a, unsigned int al, unsigned int b, 
 static void vf_load(void)
 {
 	unsigned int i;
+#if OBJ == O_DIRENT
+	unsigned int o = 0;
+#define VF_LD(m) for (i = 0; i < sizeof(vf_blkW.m); i++) vf_blkW.m[i] = IN.obj[o + i]; o += sizeof(vf_blkW.m);
+	VF_LD(h0) VF_LD(r0) VF_LD(b0)
+#ifdef R2
+	VF_LD(h1) VF_LD(r1) VF_LD(b1)
+#ifdef R3
+	VF_LD(h2) VF_LD(r2) VF_LD(b2)
+#endif
+#endif
+	VF_LD(rest)
+#else
 	for (i = 0; i < OSZ; i++)
 		W[i] = IN.obj[i];
+#endif
 }
 
 static void vf_setup_fs(void)
@@ -503,16 +543,14 @@ int main(void)
 			 * one); every other byte of the block, including the tail, is symbolic.  A fully symbolic chain
 			 * (symbolic entry positions in a 1024-byte block) exceeded 8 GB. */
 			unsigned int off = 0, steps, bad = 0;
-#ifdef R1
 			IN.obj[4] = R1 & 255; IN.obj[5] = R1 >> 8;
-			W[4] = IN.obj[4]; W[5] = IN.obj[5];
+			vf_blkW.r0[0] = R1 & 255; vf_blkW.r0[1] = R1 >> 8;
 #ifdef R2
 			IN.obj[R1 + 4] = R2 & 255; IN.obj[R1 + 5] = R2 >> 8;
-			W[R1 + 4] = IN.obj[R1 + 4]; W[R1 + 5] = IN.obj[R1 + 5];
+			vf_blkW.r1[0] = R2 & 255; vf_blkW.r1[1] = R2 >> 8;
 #ifdef R3
 			IN.obj[R1 + R2 + 4] = R3 & 255; IN.obj[R1 + R2 + 5] = R3 >> 8;
-			W[R1 + R2 + 4] = IN.obj[R1 + R2 + 4]; W[R1 + R2 + 5] = IN.obj[R1 + R2 + 5];
-#endif
+			vf_blkW.r2[0] = R3 & 255; vf_blkW.r2[1] = R3 >> 8;
 #endif
 #endif
 			for (steps = 0; steps < NSTEP; steps++) {
